@@ -80,6 +80,7 @@ C_FREQ = "file-complete-once-the-update-interval-has-elapsed"
 C_END = "file-complete-after-tuning-end"
 C_READBACK = "read-back-table-equals-log-up-to-float-text"
 C_MARKERS = "read-back-keeps-text-values-spelled-like-missing-value-markers"
+C_MARKERS_EMPTY = "read-back-keeps-the-empty-string-as-a-text-value"
 C_CNT_ALL = "overall-count-equals-number-of-results-handed-to-the-loop"
 C_CNT_TRIAL = "per-trial-count-equals-number-of-results-handed-for-the-trial"
 C_MM_ALL = "overall-min-max-equal-min-max-of-values-handed"
@@ -102,7 +103,7 @@ C_NOERR = "run-store-and-load-complete-without-error"
 
 CLAUSES = [
     C_ROWS, C_VALUES, C_TID, C_CONFIG, C_DECISION, C_TIME, C_EARLIER, C_HANDED,
-    C_PREFIX, C_FREQ, C_END, C_READBACK, C_MARKERS,
+    C_PREFIX, C_FREQ, C_END, C_READBACK, C_MARKERS, C_MARKERS_EMPTY,
     C_CNT_ALL, C_CNT_TRIAL, C_MM_ALL, C_MM_TRIAL, C_SUM_ALL, C_SUM_TRIAL, C_NAMES,
     C_NMM, C_TB_DEFAULT, C_TB_INDEX, C_TB_NAME, C_TB_CONFIG, C_PB, C_SUMMARY, C_SUMMARY_LIST,
     C_EB_INDEX, C_EB_NAME, C_EB_ROW, C_NOERR,
@@ -1154,9 +1155,11 @@ def _drive_table(book, env, root, table, name, markers=False):
         try:
             with _quiet():
                 exp = env["load_experiment"](name, download_if_not_found=False, local_path=root)
-            _check_table(book, exp.results, cb.results, where, clause=C_MARKERS)
+            # the empty string cannot be told apart from a missing cell in a CSV file without quoting: own clause (F11)
+            cl = C_MARKERS_EMPTY if where.endswith("text-value-''") else C_MARKERS
+            _check_table(book, exp.results, cb.results, where, clause=cl)
         except Exception as e:
-            book.check(C_MARKERS, False, where=where, raised=repr(e)[:300])
+            book.check(C_MARKERS_EMPTY if where.endswith("text-value-''") else C_MARKERS, False, where=where, raised=repr(e)[:300])
         shutil.rmtree(path, ignore_errors=True)
         return
     _check_experiment(book, env, root, name, list(names), modes, cb.results, where)
